@@ -138,6 +138,7 @@ def explore(driver, acc, depth, roots=None, max_states=None, oracle_on="all"):
     go to acc: sets 'states' (fingerprints) and counters transitions / traces / depth."""
     frontier = collections.deque()
     recorded = {}
+    seen = set()  # local to this call: a second exploration with other settings starts over
     if roots is None:
         roots = [()]
     for r in roots:
@@ -147,12 +148,12 @@ def explore(driver, acc, depth, roots=None, max_states=None, oracle_on="all"):
         if r:
             acc.count("transitions", len(r))
         acc.add("states", fp)
+        seen.add(fp)
         driver.oracle(acc, sys_, r, outs)
         acc.count("traces_validated_against_impl")
         driver.cleanup(sys_)
         recorded[r] = outs
         frontier.append(r)
-    seen = set(acc.sets["states"])
     maxd = 0
     capped = False
     while frontier:
